@@ -1,0 +1,40 @@
+//go:build verif
+
+// Contracts for the tvc verifier (/verif). Comment-only: with the `verif` tag off this file does not exist,
+// with it on it adds no code. Syntax: /verif/DESIGN.md appendix A.
+
+package tc
+
+//@ for C14
+//@ filemode bv
+
+//@ # ---- independent oracle: CIDR membership, byte by byte --------------------------------------------
+//@ pure func abyte32(a bv32, i int) byte = uint8(a >> bv32(8 * (3 - i)))
+//@ pure func abyte128(a bv128, i int) byte = uint8(a >> bv128(8 * (15 - i)))
+//@ pure func v4mapped(ip net.IP) bool = len(ip) == 16 && (forall i in 0..9 :: ip[i] == 0) && ip[10] == 255 && ip[11] == 255
+//@ pure func ip4byte(ip net.IP, i int) byte = ite(len(ip) == 4, ip[i], ip[12 + i])
+//@ pure func contains4(n *net.IPNet, a bv32) bool = forall i in 0..3 :: (abyte32(a, i) & n.Mask[i]) == (ip4byte(n.IP, i) & n.Mask[i])
+//@ pure func contains16(n *net.IPNet, a bv128) bool = forall i in 0..15 :: (abyte128(a, i) & n.Mask[i]) == (n.IP[i] & n.Mask[i])
+
+//@ # ---- u32 selector semantics: a key (off, mask, val) matches when the 32-bit word at packet offset off,
+//@ # masked, equals val. For the IPv6 header the source address occupies offsets 8..23; any other offset
+//@ # reads unrelated header data (an arbitrary word).
+//@ pure func otherHeaderWord(off int32) uint32
+//@ pure func word6src(a bv128, off int32) uint32 = ite(off == 8, uint32(a >> bv128(96)), ite(off == 12, uint32(a >> bv128(64)), ite(off == 16, uint32(a >> bv128(32)), ite(off == 20, uint32(a), otherHeaderWord(off)))))
+//@ pure func keyMatches6(k netlink.TcU32Key, a bv128) bool = (word6src(a, k.Off) & k.Mask) == k.Val
+
+//@ func U32IPv4Src
+//@   requires ipNet != nil
+//@   requires (len(ipNet.IP) == 4 || v4mapped(ipNet.IP)) && len(ipNet.Mask) == 4
+//@   panics
+//@   ensures result.Off == 12
+//@   ensures forall a bv32 :: ((a & result.Mask) == result.Val) <==> contains4(ipNet, a)
+
+//@ func U32IPv6Src
+//@   requires ipNet != nil
+//@   requires len(ipNet.IP) == 16 && len(ipNet.Mask) == 16
+//@   panics
+//@   loop 1 unroll 4
+//@   ensures len(result) <= 4
+//@   ensures forall a bv128 :: (forall j in 0..3 :: j < len(result) ==> keyMatches6(result[j], a)) <==> contains16(ipNet, a)
+//@   ensures forall j in 0..3 :: j < len(result) ==> (result[j].Off == 8 || result[j].Off == 12 || result[j].Off == 16 || result[j].Off == 20)
